@@ -1,7 +1,131 @@
-/- C16 — statements under construction -/
-import AgpTpf.Model.Cache
-import AgpTpf.Model.Outputs
-import AgpTpf.Model.Remap
+/-
+  C16 — `--no-clobber` never alters an existing file.
+
+  Model: `Outputs.runOutputs clobber fs₀ outs` — the run opens its output files `outs` (log, info yaml, assembly
+  files, AGP companions, CSV reports; whatever the chosen format / --write-log / number of assemblies make that list)
+  one after the other with mode "w" (clobber) or "x" (no-clobber); the first FileExistsError ends the run with exit
+  status 1 and `errorPath` = the path named in the error message.  A file's `Content` is `.old` (bytes from before the
+  run) or `.new` (completely written by this run).
+
+  All statements are for ALL initial file systems `fs₀` and ALL output lists `outs` (so in particular for every format,
+  --write-log setting, single/multi assembly, and every subset of pre-existing outputs).
+-/
+import AgpTpf.Proofs.C16
 namespace AgpTpf.C16
-theorem placeholder : True := trivial
+open AgpTpf AgpTpf.Outputs
+
+/-- With `--no-clobber`, every file that existed before the run has exactly the content it had before, whatever the
+    outputs are, whether or not the run fails (no hypothesis on `outs`: duplicates allowed). -/
+theorem no_clobber_preserves (fs₀ : FS) (outs : List Str) (p : Str) (v : Content)
+    (h : dGet? fs₀ p = some v) : dGet? (runOutputs false fs₀ outs).fs p = some v :=
+  run_x_preserves fs₀ outs p v h
+
+/-- Stronger form: the final file system is the initial one (same entries, same order) followed only by files this
+    run created. -/
+theorem no_clobber_only_adds (fs₀ : FS) (outs : List Str) :
+    ∃ added : FS, (runOutputs false fs₀ outs).fs = fs₀ ++ added ∧ ∀ e ∈ added, e.2 = Content.new :=
+  run_x_prefix fs₀ outs
+
+/-- With `--no-clobber` and pairwise different output paths: if some output pre-exists the run exits with status 1
+    and the error names the FIRST pre-existing output (in the order the run opens them). -/
+theorem no_clobber_exit_collision (fs₀ : FS) (outs : List Str) (hnd : outs.Nodup)
+    (hex : ∃ p ∈ outs, dHas fs₀ p = true) :
+    (runOutputs false fs₀ outs).exit = 1 ∧
+    ∃ p, (runOutputs false fs₀ outs).errorPath = some p ∧ outs.find? (fun q => dHas fs₀ q) = some p ∧
+      p ∈ outs ∧ dHas fs₀ p = true := by
+  have he := run_x_error fs₀ outs hnd
+  obtain ⟨p0, hp0, hp0'⟩ := hex
+  cases hf : outs.find? (fun q => dHas fs₀ q) with
+  | none =>
+    have := List.find?_eq_none.1 hf p0 hp0
+    simp [hp0'] at this
+  | some p =>
+    have hmem := List.mem_of_find?_eq_some hf
+    have hhas : dHas fs₀ p = true := by simpa using List.find?_some hf
+    refine ⟨?_, p, by rw [he, hf], rfl, hmem, hhas⟩
+    rw [run_x_exit, he, hf]; rfl
+
+/-- With `--no-clobber`, pairwise different output paths and no pre-existing output: exit status 0, no error, and
+    every output file is completely written by this run. -/
+theorem no_clobber_exit_free (fs₀ : FS) (outs : List Str) (hnd : outs.Nodup)
+    (hfree : ∀ p ∈ outs, dHas fs₀ p = false) :
+    (runOutputs false fs₀ outs).exit = 0 ∧ (runOutputs false fs₀ outs).errorPath = none ∧
+    ∀ p ∈ outs, dGet? (runOutputs false fs₀ outs).fs p = some Content.new := by
+  have he := run_x_error fs₀ outs hnd
+  have hf : outs.find? (fun q => dHas fs₀ q) = none := by
+    apply List.find?_eq_none.2
+    intro q hq; simp [hfree q hq]
+  refine ⟨?_, by rw [he, hf], run_x_all_new fs₀ outs hnd hfree⟩
+  rw [run_x_exit, he, hf]; rfl
+
+/-- The two cases as one equivalence (the form asked for): the run fails iff some output pre-exists, and the error
+    path is always the first pre-existing output. -/
+theorem no_clobber_exit (fs₀ : FS) (outs : List Str) (hnd : outs.Nodup) :
+    ((runOutputs false fs₀ outs).exit ≠ 0 ↔ ∃ p ∈ outs, dHas fs₀ p = true) ∧
+    ((runOutputs false fs₀ outs).exit = 0 ∨ (runOutputs false fs₀ outs).exit = 1) ∧
+    (runOutputs false fs₀ outs).errorPath = outs.find? (fun q => dHas fs₀ q) := by
+  refine ⟨?_, ?_, run_x_error fs₀ outs hnd⟩
+  · constructor
+    · intro hne
+      apply Classical.byContradiction
+      intro hno
+      have hfree : ∀ p ∈ outs, dHas fs₀ p = false := by
+        intro p hp
+        cases h : dHas fs₀ p with
+        | false => rfl
+        | true => exact absurd ⟨p, hp, h⟩ hno
+      exact hne (no_clobber_exit_free fs₀ outs hnd hfree).1
+    · intro hex
+      rw [(no_clobber_exit_collision fs₀ outs hnd hex).1]; decide
+  · rw [run_x_exit]; split <;> simp
+
+/-- Without the `Nodup` hypothesis `no_clobber_exit` is false: a run that names the same output path twice collides
+    with the file it has just created itself (exit 1 although nothing pre-existed). -/
+example : (runOutputs false [] [['a'], ['a']]).exit = 1 ∧ dHas ([] : FS) ['a'] = false := by decide
+
+/-- With the default `--clobber` the run succeeds, every output file is completely rewritten, and every other path
+    keeps its content (all `outs`, duplicates allowed). -/
+theorem clobber_rewrites (fs₀ : FS) (outs : List Str) :
+    (runOutputs true fs₀ outs).exit = 0 ∧ (runOutputs true fs₀ outs).errorPath = none ∧
+    (∀ p ∈ outs, dGet? (runOutputs true fs₀ outs).fs p = some Content.new) ∧
+    (∀ q, q ∉ outs → dGet? (runOutputs true fs₀ outs).fs q = dGet? fs₀ q) :=
+  ⟨(run_w_ok fs₀ outs).1, (run_w_ok fs₀ outs).2, fun p hp => run_w_new fs₀ outs p hp,
+   fun q hq => run_w_other fs₀ outs q hq⟩
+
+/-! ### non-vacuity: a run with log, info yaml, assembly file, AGP companion, CSV report -/
+
+private def pLog : Str := ['o', '.', 'l', 'o', 'g']
+private def pYaml : Str := ['o', '.', 'i', 'n', 'f', 'o', '.', 'y', 'a', 'm', 'l']
+private def pFa : Str := ['o', '.', 'f', 'a']
+private def pAgp : Str := ['o', '.', 'a', 'g', 'p']
+private def pCsv : Str := ['o', '.', 'c', 's', 'v']
+private def pIn : Str := ['i', 'n', '.', 'a', 'g', 'p']
+private def outs5 : List Str := [pLog, pYaml, pFa, pAgp, pCsv]
+/-- input file and two of the five outputs (the AGP companion and the CSV) pre-exist -/
+private def fsPre : FS := [(pIn, .old), (pCsv, .old), (pAgp, .old)]
+
+example : outs5.Nodup := by decide
+example : ∃ p ∈ outs5, dHas fsPre p = true := ⟨pAgp, by decide, by decide⟩
+example : ∀ p ∈ outs5, dHas [(pIn, Content.old)] p = false := by decide
+/-- the failing run: exit 1, error names `o.agp` (opened before `o.csv`), old files still `.old`; the three files
+    opened before the collision were created (they did not exist before, so nothing pre-existing was altered) -/
+example : (runOutputs false fsPre outs5).exit = 1 ∧ (runOutputs false fsPre outs5).errorPath = some pAgp ∧
+    (runOutputs false fsPre outs5).fs =
+      fsPre ++ [(pLog, .new), (pYaml, .new), (pFa, .new)] := by decide
+example : (runOutputs false [(pIn, .old)] outs5).exit = 0 ∧
+    (runOutputs false [(pIn, .old)] outs5).fs = (pIn, .old) :: outs5.map (·, .new) := by decide
+example : (runOutputs true fsPre outs5).exit = 0 ∧
+    (runOutputs true fsPre outs5).fs =
+      [(pIn, .old), (pCsv, .new), (pAgp, .new), (pLog, .new), (pYaml, .new), (pFa, .new)] := by decide
+private def subsets {α} : List α → List (List α)
+  | [] => [[]]
+  | x :: xs => subsets xs ++ (subsets xs).map (x :: ·)
+example : (subsets outs5).length = 32 := by decide
+/-- every non-empty subset of the five outputs pre-existing: exit 1 and all pre-existing files unchanged
+    (exhaustive check of the 31 subsets, as an instance of the theorems above) -/
+example : ∀ sub ∈ subsets outs5, sub ≠ [] →
+    let fs₀ : FS := (pIn, .old) :: sub.map (·, .old)
+    (runOutputs false fs₀ outs5).exit = 1 ∧ (runOutputs false fs₀ outs5).fs.take fs₀.length = fs₀ := by
+  decide
+
 end AgpTpf.C16
